@@ -1157,7 +1157,8 @@ class Interp:
         if spec.ghost:
             g.update(spec.ghost(self, env, g))
         for label, claim in spec.inv(self, env, g).items():
-            run.oblige(f'{name}.inv.entry:{label}', claim)
+            claim, regs = claim if isinstance(claim, tuple) else (claim, None)
+            run.oblige(f'{name}.inv.entry:{label}', claim, regions=regs)
         targets = assigned_names(s.body)
         if is_for:
             targets |= assigned_names([ast.Assign(targets=[s.target], value=ast.Constant(value=None))])
@@ -1168,7 +1169,7 @@ class Interp:
             n = zint(iterable.seq_len())
             run.assume(z3.And(g['i'] >= 0, g['i'] <= n))
         for label, claim in spec.inv(self, env, g).items():
-            run.assume(claim)
+            run.assume(claim[0] if isinstance(claim, tuple) else claim)
         if which == 'body':
             if is_for:
                 run.assume(g['i'] < n)
@@ -1187,7 +1188,8 @@ class Interp:
             if is_for:
                 g['i'] = g['i'] + 1
             for label, claim in spec.inv(self, env, g).items():
-                run.oblige(f'{name}.inv.preserve:{label}', claim)
+                claim, regs = claim if isinstance(claim, tuple) else (claim, None)
+                run.oblige(f'{name}.inv.preserve:{label}', claim, regions=regs)
             if spec.step:
                 for label, claim in spec.step(self, pre_env, env, g).items():
                     run.oblige(f'{name}.step:{label}', claim)
